@@ -237,12 +237,10 @@ def runPost (cfg : Cfg) (jl : JLoads) (req : Req) (c : Cache) : Cache × Except 
       | .ok j => some j
       | .error _ => c.json
     else c.json
-  -- `forms` / `files` are published only when the whole body was processed (9db424c): a failed
-  -- run leaves no partial mappings behind for the next access
-  let c' : Cache := { c with json := jc }
+  let c' : Cache := { c with json := jc, files := some r.files,
+                             forms := match r.forms with | some f => some f | none => c.forms }
   match r.result with
-  | .ok d => ({ c' with post := some d, files := some r.files,
-                        forms := match r.forms with | some f => some f | none => c.forms }, .ok d)
+  | .ok d => ({ c' with post := some d }, .ok d)
   | .error e => (c', .error e)
 
 /-- `self.POST` inside `forms` / `files`: the cached mapping, or a run of the getter -/
